@@ -14,7 +14,7 @@ const char *vh_where = "";
 long vh_seg = 0, vh_step = 0;
 
 void vh_open(const char *path) {
-    vh_fd = open(path, O_WRONLY | O_CREAT | O_TRUNC | O_APPEND, 0644);
+    vh_fd = open(path, O_WRONLY | O_CREAT | O_APPEND | (getenv("VH_APPEND") ? 0 : O_TRUNC), 0644);
     if (vh_fd < 0) { perror(path); _exit(2); }
 }
 void vh_close(void) { if (vh_fd > 2) close(vh_fd); }
